@@ -454,7 +454,7 @@ package nsqd
 // the ten topic / channel create / delete / empty / pause / unpause endpoints, /debug/pprof/symbol and /debug/freememory; under GET iff it
 // is /ping, /info, /stats, /config/:opt or a pprof page; under PUT iff it is /config/:opt or /debug/setblockrate; under no other method.
 // So every state-changing endpoint is reachable by POST only (PUT for the two settings), never by GET.
-// NOT stated (engine gap, notes): WHICH handler and which decorators sit under a path - function values have no identity in the engine.
+// WHICH handler and which decorators sit under a path: see r6MNsqdRoute below (round 6, area M: fnname()).
 //@ ghost r5FServersBuilt int
 //@ ghost r5FServerFor *NSQD
 //@ ghost r5FServerTLSEnabled bool
@@ -465,6 +465,42 @@ package nsqd
 //@ pred r5FIsGetPath(p string) := p == "/ping" || p == "/info" || p == "/stats" || p == "/config/:opt" || p == "/debug/pprof/" || p == "/debug/pprof/cmdline" || p == "/debug/pprof/symbol" ||
 //@        p == "/debug/pprof/profile" || p == "/debug/pprof/heap" || p == "/debug/pprof/goroutine" || p == "/debug/pprof/block" || p == "/debug/pprof/threadcreate"
 //@ pred r5FIsPutPath(p string) := p == "/config/:opt" || p == "/debug/setblockrate"
+// (round 6, area M) HANDLER IDENTITY. The documented table, row by row: method, path, the handler (fnname of the function / bound method of THIS
+// server that http_api.Decorate was given), the number of decorators and the LAST decorator = the outermost wrapper, the one that turns the
+// handler's (value, error) into the response: V1 for the API (/pub and /mpub carry V1 alone, everything else the request log + V1),
+// PlainText for /ping and the two debug settings. pprof pages: the net/http/pprof function, or the profile name given to pprof.Handler.
+//@ pred r6MLastIs(last string, name string) := last == name
+//@ pred r6MNsqdApiRoute(m string, p string, h string, n int, last string) :=
+//@        (m == "GET" && p == "/ping" && h == "(*github.com/nsqio/nsq/nsqd.httpServer).pingHandler" && n == 2 && r6MLastIs(last, "github.com/nsqio/nsq/internal/http_api.PlainText")) ||
+//@        (m == "GET" && p == "/info" && h == "(*github.com/nsqio/nsq/nsqd.httpServer).doInfo" && n == 2 && r6MLastIs(last, "github.com/nsqio/nsq/internal/http_api.V1")) ||
+//@        (m == "POST" && p == "/pub" && h == "(*github.com/nsqio/nsq/nsqd.httpServer).doPUB" && n == 1 && r6MLastIs(last, "github.com/nsqio/nsq/internal/http_api.V1")) ||
+//@        (m == "POST" && p == "/mpub" && h == "(*github.com/nsqio/nsq/nsqd.httpServer).doMPUB" && n == 1 && r6MLastIs(last, "github.com/nsqio/nsq/internal/http_api.V1")) ||
+//@        (m == "GET" && p == "/stats" && h == "(*github.com/nsqio/nsq/nsqd.httpServer).doStats" && n == 2 && r6MLastIs(last, "github.com/nsqio/nsq/internal/http_api.V1")) ||
+//@        (m == "POST" && p == "/topic/create" && h == "(*github.com/nsqio/nsq/nsqd.httpServer).doCreateTopic" && n == 2 && r6MLastIs(last, "github.com/nsqio/nsq/internal/http_api.V1")) ||
+//@        (m == "POST" && p == "/topic/delete" && h == "(*github.com/nsqio/nsq/nsqd.httpServer).doDeleteTopic" && n == 2 && r6MLastIs(last, "github.com/nsqio/nsq/internal/http_api.V1")) ||
+//@        (m == "POST" && p == "/topic/empty" && h == "(*github.com/nsqio/nsq/nsqd.httpServer).doEmptyTopic" && n == 2 && r6MLastIs(last, "github.com/nsqio/nsq/internal/http_api.V1")) ||
+//@        (m == "POST" && p == "/topic/pause" && h == "(*github.com/nsqio/nsq/nsqd.httpServer).doPauseTopic" && n == 2 && r6MLastIs(last, "github.com/nsqio/nsq/internal/http_api.V1")) ||
+//@        (m == "POST" && p == "/topic/unpause" && h == "(*github.com/nsqio/nsq/nsqd.httpServer).doPauseTopic" && n == 2 && r6MLastIs(last, "github.com/nsqio/nsq/internal/http_api.V1")) ||
+//@        (m == "POST" && p == "/channel/create" && h == "(*github.com/nsqio/nsq/nsqd.httpServer).doCreateChannel" && n == 2 && r6MLastIs(last, "github.com/nsqio/nsq/internal/http_api.V1")) ||
+//@        (m == "POST" && p == "/channel/delete" && h == "(*github.com/nsqio/nsq/nsqd.httpServer).doDeleteChannel" && n == 2 && r6MLastIs(last, "github.com/nsqio/nsq/internal/http_api.V1")) ||
+//@        (m == "POST" && p == "/channel/empty" && h == "(*github.com/nsqio/nsq/nsqd.httpServer).doEmptyChannel" && n == 2 && r6MLastIs(last, "github.com/nsqio/nsq/internal/http_api.V1")) ||
+//@        (m == "POST" && p == "/channel/pause" && h == "(*github.com/nsqio/nsq/nsqd.httpServer).doPauseChannel" && n == 2 && r6MLastIs(last, "github.com/nsqio/nsq/internal/http_api.V1")) ||
+//@        (m == "POST" && p == "/channel/unpause" && h == "(*github.com/nsqio/nsq/nsqd.httpServer).doPauseChannel" && n == 2 && r6MLastIs(last, "github.com/nsqio/nsq/internal/http_api.V1")) ||
+//@        (m == "GET" && p == "/config/:opt" && h == "(*github.com/nsqio/nsq/nsqd.httpServer).doConfig" && n == 2 && r6MLastIs(last, "github.com/nsqio/nsq/internal/http_api.V1")) ||
+//@        (m == "PUT" && p == "/config/:opt" && h == "(*github.com/nsqio/nsq/nsqd.httpServer).doConfig" && n == 2 && r6MLastIs(last, "github.com/nsqio/nsq/internal/http_api.V1")) ||
+//@        (m == "PUT" && p == "/debug/setblockrate" && h == "github.com/nsqio/nsq/nsqd.setBlockRateHandler" && n == 2 && r6MLastIs(last, "github.com/nsqio/nsq/internal/http_api.PlainText")) ||
+//@        (m == "POST" && p == "/debug/freememory" && h == "github.com/nsqio/nsq/nsqd.freeMemory" && n == 2 && r6MLastIs(last, "github.com/nsqio/nsq/internal/http_api.PlainText"))
+//@ pred r6MNsqdDebugRoute(m string, p string, h string, n int, last string) :=
+//@        (m == "GET" && p == "/debug/pprof/" && h == "net/http/pprof.Index" && n == 0 && r6MLastIs(last, "")) ||
+//@        (m == "GET" && p == "/debug/pprof/cmdline" && h == "net/http/pprof.Cmdline" && n == 0 && r6MLastIs(last, "")) ||
+//@        (m == "GET" && p == "/debug/pprof/symbol" && h == "net/http/pprof.Symbol" && n == 0 && r6MLastIs(last, "")) ||
+//@        (m == "POST" && p == "/debug/pprof/symbol" && h == "net/http/pprof.Symbol" && n == 0 && r6MLastIs(last, "")) ||
+//@        (m == "GET" && p == "/debug/pprof/profile" && h == "net/http/pprof.Profile" && n == 0 && r6MLastIs(last, "")) ||
+//@        (m == "GET" && p == "/debug/pprof/heap" && h == "heap" && n == 0 && r6MLastIs(last, "pprof.Handler")) ||
+//@        (m == "GET" && p == "/debug/pprof/goroutine" && h == "goroutine" && n == 0 && r6MLastIs(last, "pprof.Handler")) ||
+//@        (m == "GET" && p == "/debug/pprof/block" && h == "block" && n == 0 && r6MLastIs(last, "pprof.Handler")) ||
+//@        (m == "GET" && p == "/debug/pprof/threadcreate" && h == "threadcreate" && n == 0 && r6MLastIs(last, "pprof.Handler"))
+//@ pred r6MNsqdRoute(m string, p string, h string, n int, last string) := r6MNsqdApiRoute(m, p, h, n, last) || r6MNsqdDebugRoute(m, p, h, n, last)
 //@ func newHTTPServer(nsqd *NSQD, tlsEnabled bool, tlsRequired bool) *httpServer
 //@   props C10
 //@   nochan
@@ -478,7 +514,11 @@ package nsqd
 //@   ensures[get-routes-exactly] forall p string :: {setin(r5FGetRoutes, p)} setin(r5FGetRoutes, p) <==> (old(setin(r5FGetRoutes, p)) || r5FIsGetPath(p))
 //@   ensures[put-routes-exactly] forall p string :: {setin(r5FPutRoutes, p)} setin(r5FPutRoutes, p) <==> (old(setin(r5FPutRoutes, p)) || r5FIsPutPath(p))
 //@   ensures[no-other-method] r5FOtherMethodRoutes == old(r5FOtherMethodRoutes)
-//@   modifies r5FRoutes, r5FServersBuilt, r5HDecorations
+//   (round 6, area M) EVERY registration of this call is a row of the documented table r6MNsqdRoute: the (method, path) pair is bound to exactly
+//   the documented handler of this server, with the documented response decorator outermost. With the exact per-method path sets above
+//   (every documented pair is registered, nothing else is) each documented (method, path) is therefore served by its documented handler.
+//@   ensures[every-route-has-its-documented-handler-and-decorator] r6MNsqdOffTable == old(r6MNsqdOffTable)
+//@   modifies r5FRoutes, r5FServersBuilt, r5HDecorations, r6MPprofFor
 //   r5FServersBuilt / r5FServerFor / r5FServerTLSEnabled / r5FServerTLSRequired: number of servers built, daemon and TLS flags of the latest
 //@   onreturn r5FServersBuilt := r5FServersBuilt + 1
 //@   onreturn r5FServerFor := nsqd
@@ -514,7 +554,7 @@ package nsqd
 //@   ensures[https-server-enforces-tls] n.httpsListener != nil ==> r5FServerFor == n && r5FServerTLSEnabled && r5FServerTLSRequired
 //@   ensures[plain-server-gate-follows-the-option] n.httpsListener == nil && n.httpListener != nil ==> r5FServerFor == n && !r5FServerTLSEnabled && r5FServerTLSRequired == (curOpts(n).TLSRequired == TLSRequired)
 //@   ensures[returns-after-one-exit-signal] recvd(final(exitCh)) == 1 && sent(final(exitCh)) == 0
-//@   modifies r5FRoutes, r5FServersBuilt, chanstore(error), r5HDecorations
+//@   modifies r5FRoutes, r5FServersBuilt, chanstore(error), r5HDecorations, r6MPprofFor
 
 //@ func (n *NSQD) Main$1$1()
 //@   props C05
